@@ -1,11 +1,16 @@
 #!/bin/sh
-# Build ocaml/driver from the extracted model (ocaml/gen/model.ml, written by coq/Extract.v) and the hand-written drivers.
+# Build ocaml/driver from the extracted models (ocaml/gen/*_model.ml, written by coq/Extract.v) and the hand-written drivers.
 set -e
 cd "$(dirname "$0")/../ocaml"
-[ -f gen/model.ml ] || { echo "ocaml/gen/model.ml missing: build coq/Extract.vo first"; exit 1; }
-newest=$(ls -t gen/model.ml gen/model.mli *.ml | head -1)
+ls gen/*_model.ml >/dev/null 2>&1 || { echo "ocaml/gen/*_model.ml missing: build coq/Extract.vo first"; exit 1; }
+newest=$(ls -t gen/*_model.ml gen/*_model.mli *.ml | head -1)
 if [ -x driver ] && [ driver -nt "$newest" ]; then exit 0; fi
-mkdir -p _build && cp gen/model.ml gen/model.mli *.ml _build/
+rm -rf _build && mkdir -p _build && cp gen/*_model.ml gen/*_model.mli *.ml _build/
 cd _build
-ocamlfind ocamlopt -w -a -inline 50 model.mli model.ml util.ml $(ls d_*.ml | LC_ALL=C sort) driver.ml -o ../driver.new
+models=$(ls *_model.ml | LC_ALL=C sort)
+# compile the extracted models in parallel (they are independent), then the drivers
+for m in $models; do ( ocamlfind ocamlopt -w -a -c "${m%.ml}.mli" && ocamlfind ocamlopt -w -a -inline 50 -c "$m" ) & done
+wait
+for m in $models; do [ -f "${m%.ml}.cmx" ] || { echo "compiling $m failed"; exit 1; }; done
+ocamlfind ocamlopt -w -a -inline 50 $(for m in $models; do echo "${m%.ml}.cmx"; done) util.ml $(ls d_*.ml | LC_ALL=C sort) driver.ml -o ../driver.new
 mv ../driver.new ../driver
